@@ -14,7 +14,7 @@ PROPS = {
                        "moves next: an interleaving is a shrinkable, replayable value. (S) Stress mode: 1-3 real gateway processes on one storage, 2-10 "
                        "parallel clients with 1-6 operations each, no hooks, monotonic clock stamps. Oracle for both: every 200 read must carry the body, "
                        "length, ETag, metadata and content type of one single write (else: torn read), and the history with its real-time order must be "
-                       "linearizable for a register holding 'absent' or a write (refused writes / deletes may or may not have taken effect). A third of the scheduled cases stall one operation after k of its steps until the others are through; uploads declare a CRC32 and most reads ask for it (the checksum must belong to the same write); one write is the empty object. A quarter of the cases run with a versions store and bucket versioning enabled; writers are stalled as well as readers. Reads also come as server-side copies of the key to a key of the operation's own (what arrives there is what the copy read: it must be body, ETag and metadata of one write). Every write comes with a tag set of its own and GetObjectTagging is one of the reads (during the race and once after it)."),
+                       "linearizable for a register holding 'absent' or a write (refused writes / deletes may or may not have taken effect). A third of the scheduled cases stall one operation after k of its steps until the others are through; uploads declare a CRC32 and most reads ask for it (the checksum must belong to the same write); one write is the empty object. A quarter of the cases run with a versions store and bucket versioning enabled; writers are stalled as well as readers. Reads also come as server-side copies of the key to a key of the operation's own (what arrives there is what the copy read: it must be body, ETag and metadata of one write). Every write comes with a tag set of its own and GetObjectTagging is one of the reads (during the race and once after it). (D) the key is a directory object, told apart by user metadata and tag set alone, raced by PUT / DELETE / GET / HEAD / GetObjectTagging of itself and by uploads and deletes of the key below it (which create and prune its directory); operations may pause right before a step of a chosen kind (an attribute written by path, the open of a read, a rename). HEAD with checksum mode is a read too (every checksum header must belong to the same write); the initial object may come from a multipart upload."),
         "level_note": "interleavings are explored at hook granularity (steps between two hooks are atomic for the explorer); the stress mode does not depend on hook placement. Versioned buckets and the sidecar metadata store are not part of this check. Exploration only.",
         "rule": ("case = (temp-file strategy, gateways, initial state, operations, schedule). Non-trivial: at least two operations were in flight together "
                  "(A) / a write overlapped another client's operation (S); distinct by the full case including the schedule."),
@@ -22,6 +22,7 @@ PROPS = {
         "jobs": [
             {"run": "TestC05A", "quick": 16000, "thorough": 400000, "shards_quick": 8, "shards_thorough": 16, "disk_shards": 4},
             {"run": "TestC05S", "quick": 240, "thorough": 12000, "shards_quick": 4, "shards_thorough": 8},
+            {"run": "TestC05D", "quick": 4000, "thorough": 120000, "shards_quick": 4, "shards_thorough": 16},
         ],
     },
     "C11": {
